@@ -9,6 +9,7 @@ CONSTANTS MAX_RETRIES = 3
           TrustMode = "all"
           WithBad = TRUE
           AlgoMode = "normal"
+INVARIANT TickManyOK
 INVARIANT Agreement
 INVARIANT AtMostOnce
 INVARIANT HalvesDisjoint
